@@ -292,4 +292,16 @@ def state_rule(ctx, R):
     })
 
 
-RULES = [pairing, stepfns, linnice, time_nice, samecount, ceil_rule, state_rule]
+def _lazy(mod, fn, rid):
+    def run(ctx, R):
+        import importlib
+        return getattr(importlib.import_module("sa.rules." + mod), fn)(ctx, R)
+
+    run.rule_id = rid
+    run.__name__ = fn
+    return run
+
+
+# nicing moves the ends outward only if the unit floors really round down and the offsets move by whole units
+RULES = [pairing, stepfns, linnice, time_nice, samecount, ceil_rule, state_rule,
+         _lazy("c17", "unittable", "C17.UNITTABLE"), _lazy("c17", "monthstep", "C17.MONTHSTEP"), _lazy("c17", "round_rule", "C17.ROUND")]
